@@ -14,23 +14,29 @@ def run(ctx):
         return ctx.finish("model_checking", {"replayed_behaviours": done.get("behaviours", 0)})
 
     # 1. exhaustive: delete interleaved with writes, a snapshot, a compaction, a crash (snapshot and delete exclusive:
-    #    the design the property needs; the implementation's overlap is the recorded deviation F14)
+    #    the design the property needs; the implementation's overlap is the recorded deviation F14).
+    #    With the overlap allowed (F14) the model must lose the property: vacuity guard + the lead that is
+    #    confirmed on the real code below.
     big = not ctx.quick()
-    te.mc(ctx, sd, "MCdelete", te.mc_consts(keys=("a1", "a2", "b1"), w=2, snap=1, dele=1, crash=1,
-                                            times=(0, 1, 2) if big else (0, 1)), te.INV_C10)
-    te.mc(ctx, sd, "MCdelcomp", te.mc_consts(keys=("a1", "b1"), w=2, snap=2, comp=1, dele=1, crash=1 if big else 0), te.INV_C10)
-    te.mc(ctx, sd, "MCdel2", te.mc_consts(keys=("a1", "a2"), w=2, snap=1, dele=2, crash=0), te.INV_C10)
-    # with the overlap allowed (F14) the model must lose the property: vacuity guard + the lead that is
-    # confirmed on the real code below
-    te.negative_control(ctx, sd, "NCf14", te.mc_consts(keys=("a1", "b1"), w=2, snap=1, dele=1, crash=0, dev=("F14",)), "NoTaintedLoss")
+    w = 8 if big else 4
+    te.run_parallel([
+        lambda: te.mc(ctx, sd, "MCdelete", te.mc_consts(keys=("a1", "a2", "b1") if big else ("a1", "b1"), w=2, snap=1, dele=1, crash=1,
+                                                        times=(0, 1, 2) if big else (0, 1)), te.INV_C10, workers=w),
+        lambda: te.mc(ctx, sd, "MCdelcomp", te.mc_consts(keys=("a1", "b1"), w=2, snap=2, comp=1, dele=1, crash=1 if big else 0), te.INV_C10, workers=w),
+        lambda: te.mc(ctx, sd, "MCdel2", te.mc_consts(keys=("a1", "a2"), w=2, snap=1, dele=2, crash=0), te.INV_C10, workers=w),
+        lambda: te.negative_control(ctx, sd, "NCf14", te.mc_consts(keys=("a1", "b1"), w=2, snap=1, dele=1, crash=0, dev=("F14",)), "NoTaintedLoss"),
+    ], max_workers=2 if big else 4)
 
     # 2. behaviours -> real store: deletes between / inside snapshots (gate), before / after compactions,
     #    crashes inside the delete; reads + listings after every later step
-    n = ctx.pick(1, 10)
-    behs = []
-    behs += te.generate(ctx, sd, "GenDel", te.gen_consts(["write", "snapshot", "compact", "delete", "reopen", "crash"], dele=4, crash=2), num=14 * n)
-    behs += te.generate(ctx, sd, "GenGate", te.gen_consts(["write", "snapshot", "gate", "delete", "reopen", "crash"], dele=3, crash=2, comp=0), num=10 * n)
-    behs += te.generate(ctx, sd, "GenDelComp", te.gen_consts(["write", "snapshot", "compact", "delete"], dele=3, crash=0, w=5), num=6 * n)
+    n = ctx.pick(1, 5)
+    gens = te.run_parallel([
+        lambda: te.generate(ctx, sd, "GenDel", te.gen_consts(["write", "snapshot", "compact", "delete", "reopen", "crash"], dele=4, crash=2), num=10 * n),
+        lambda: te.generate(ctx, sd, "GenGate", te.gen_consts(["write", "snapshot", "gate", "delete", "reopen", "crash"], dele=3, crash=2, comp=0), num=6 * n),
+        lambda: te.generate(ctx, sd, "GenWindow", te.gen_consts(["write", "gate", "delete"], dele=3, crash=0, comp=0, genlen=8), num=16 * n, variants=1),
+        lambda: te.generate(ctx, sd, "GenDelComp", te.gen_consts(["write", "snapshot", "compact", "delete"], dele=3, crash=0, w=5, snap=4), num=8 * n),
+    ], max_workers=4)
+    behs = te.known_behaviours(ctx) + [b for g in gens for b in g]
     acts, f1, f14 = te.stats(behs)
     ndel = sum(v for k, v in acts.items() if k.startswith("delete"))
     log("  behaviours: %d; deletes: %d; behaviours with a delete inside the snapshot window: %d" % (len(behs), ndel, f14))
@@ -43,4 +49,5 @@ def run(ctx):
     return ctx.finish("model_checking", extra, assumptions=[
         "selections: one series (measurement or tag predicate), two measurements, whole database; ranges closed and open-ended, incl. single instants; 3 timestamps incl. epoch 0",
         "writes do not overlap a delete (Store delete guards are not exercised); inmem index; one shard",
+        "a point targeted by a delete that has not completed (or was cut by a crash) is unspecified until the delete is repeated",
         "crash model as C01"])
